@@ -78,3 +78,34 @@ class Multi(object):
 
     def spec(self, S):
         raise RuntimeError('overloaded contract set must be resolved with select()')
+
+
+# ------------------------------------------------------------------------------------------------ pure lemmas
+LEMMAS = {}
+
+
+class PureLemma(object):
+    """forall real params: hyp(params) ==> concl(params).  Proved once in its own array-free harness (nlsat decides these
+    in milliseconds); used in context through G.use(lemma, args), which assumes the instance."""
+
+    def __init__(self, name, nparams, hyp, concl):
+        self.name = name
+        self.nparams = nparams
+        self.hyp = hyp
+        self.concl = concl
+        LEMMAS[name] = self
+
+
+def mono_lemma(a, b):
+    """x * I_a * h^b  ==  x * h^(b-a)  (b >= a)   or   x * I_(a-b)  (a > b),   given h*iv == 1, I_a == iv^a, I_(a-b) == iv^(a-b)"""
+    name = 'mono_%d_%d' % (a, b)
+    if name in LEMMAS:
+        return LEMMAS[name]
+    from speclib import power
+
+    def hyp(x, h, iv, Ia, Id):
+        return conj([(h * iv).eq(1), Ia.eq(power(iv, a)), Id.eq(power(iv, a - b)) if a > b else True])
+
+    def concl(x, h, iv, Ia, Id):
+        return (x * Ia * power(h, b)).eq(x * power(h, b - a) if b >= a else x * Id)
+    return PureLemma(name, 5, hyp, concl)
